@@ -180,3 +180,19 @@ Theorem C17_facade_json :
   facade_slot_index cred schema_doc unit (option opts) p f t d = get_field_slot_index f t d.
 Proof. exact facade_json_parser. Qed.
 Print Assumptions C17_facade_json.
+
+(* every facade method depends on ITS component only: processors that agree on the component a
+   method needs agree on that method, whatever else is or is not configured (with C17_facade: the
+   answer is that component's own answer, or the method's own not-defined error, never another
+   component's).  The seeded guard on the wrong component is refuted: Slots.facade_validate_c17m_refuted *)
+Theorem C17_facade_transparent :
+  forall (C S D Opt : Type) (p p' : processor C S D Opt),
+  (pr_validator C S D Opt p = pr_validator C S D Opt p' ->
+     forall d s, facade_validate C S D Opt p d s = facade_validate C S D Opt p' d s) /\
+  (pr_parser C S D Opt p = pr_parser C S D Opt p' ->
+     (forall f t s, facade_slot_index C S D Opt p f t s = facade_slot_index C S D Opt p' f t s) /\
+     (forall c o, facade_parse_claim C S D Opt p c o = facade_parse_claim C S D Opt p' c o)) /\
+  (pr_loader C S D Opt p = pr_loader C S D Opt p' ->
+     forall u, facade_load C S D Opt p u = facade_load C S D Opt p' u).
+Proof. exact facade_transparent. Qed.
+Print Assumptions C17_facade_transparent.
